@@ -3,10 +3,11 @@
 for each /tmp/seed/<id>/m<k>:  patch applies, touched packages build, the demonstration FAILS with the
 change and PASSES without it, the existing tests of the touched packages still pass with the change
 (modulo tests that already fail on the unchanged tree). Confirmed ones are copied to /verif/seeded/<id>_m<k>/.
-Usage: confirm_seeded.py [ids...]"""
+Usage: [SEED_DIR=/tmp/seed2 SEED_OFFSET=2] confirm_seeded.py [ids...]"""
 import json, os, re, shutil, subprocess, sys, time
 
-SEED = "/tmp/seed"
+SEED = os.environ.get("SEED_DIR", "/tmp/seed")
+OFFSET = int(os.environ.get("SEED_OFFSET", "0"))  # m1 of round 2 is stored as m3 with SEED_OFFSET=2
 OUT = "/verif/seeded"
 WT = "/tmp/wt-confirm"
 ENV = dict(os.environ, GOFLAGS="-mod=mod", GOPROXY="off")
@@ -80,7 +81,7 @@ def main():
                 ok = rc0 == 0 and rc1 != 0 and rcb == 0 and not fails
                 rec["status"] = "confirmed" if ok else "NOT confirmed"
                 if ok:
-                    dst = os.path.join(OUT, f"{pid}_{m}")
+                    dst = os.path.join(OUT, f"{pid}_m{int(m[1:]) + OFFSET}")
                     os.makedirs(dst, exist_ok=True)
                     shutil.copy(patch, os.path.join(dst, "patch.diff"))
                     shutil.copy(os.path.join(d, "demo_test.go"), os.path.join(dst, "demo_test.go.txt"))
@@ -97,7 +98,13 @@ def main():
                 print(json.dumps(rec), flush=True)
     finally:
         subprocess.run(f"git -C /repo worktree remove --force {WT}", shell=True, capture_output=True)
-    json.dump(results, open("/verif/seeded/confirmation_log.json", "w"), indent=1)
+    logp = "/verif/seeded/confirmation_log.json"
+    prev = json.load(open(logp)) if os.path.exists(logp) else []
+    for r in results:
+        r["stored_as"] = f"{r['property']}_m{int(r['mutant'][1:]) + OFFSET}"
+        r["seed_dir"] = SEED
+    keep = [x for x in prev if x.get("stored_as", f"{x['property']}_{x['mutant']}") not in {r["stored_as"] for r in results}]
+    json.dump(keep + results, open(logp, "w"), indent=1)
 
 
 if __name__ == "__main__":
